@@ -15,6 +15,8 @@ import (
 	"reflect"
 	"time"
 
+	"gorm.io/gorm"
+
 	"verifharness/lib"
 )
 
@@ -116,6 +118,12 @@ func kindOfType(t reflect.Type, ser string) Kind {
 		return Kind{K: "custom", Of: &Kind{K: "str"}}
 	case reflect.TypeOf(Cents{}):
 		return Kind{K: "custom", Of: &Kind{K: "int", W: 64}}
+	case reflect.TypeOf(Pts{}):
+		return Kind{K: "custom", Of: &Kind{K: "int", W: 64}}
+	case reflect.TypeOf(gorm.DeletedAt{}):
+		return Kind{K: "null", Of: &Kind{K: "time"}}
+	case reflect.TypeOf(Enc("")):
+		return Kind{K: "ser", Ser: "json", Of: &Kind{K: "str"}} // its own serializer, JSON text of the string
 	}
 	switch t.Kind() {
 	case reflect.Ptr:
@@ -329,7 +337,7 @@ func build(k Kind, val Val, t reflect.Type) reflect.Value {
 			out.SetInt(n.Int64())
 		case reflect.TypeOf(Tag{}):
 			out.Field(0).SetString(val.S[4:])
-		case reflect.TypeOf(Cents{}):
+		case reflect.TypeOf(Cents{}), reflect.TypeOf(Pts{}):
 			n, _ := new(big.Int).SetString(val.Z, 10)
 			out.Field(0).SetInt(n.Int64())
 		}
